@@ -73,11 +73,16 @@ type ContractDB struct {
 	// havocked when the owner re-acquires the lock, and a write from any other function is a
 	// violation (<function>.single-writer).
 	Owner map[string]string
+	// StopOwned: "Type.field" that Stop() accesses WITHOUT the lock after it has published the
+	// Shutdown state; every other function may touch such a field only where it knows that the node
+	// is not shut down. StopExempt: the lifecycle functions themselves.
+	StopOwned  map[string]bool
+	StopExempt map[string]bool
 	File        string
 	NLines      int
 }
 
-var topKeywords = map[string]bool{"sectguar": true, "ghost": true, "spec": true, "inv": true, "guar": true, "threadlocal": true, "func": true, "iface": true, "extern": true, "lemma": true, "callers": true, "unprotected": true, "owner": true}
+var topKeywords = map[string]bool{"sectguar": true, "ghost": true, "spec": true, "inv": true, "guar": true, "threadlocal": true, "func": true, "iface": true, "extern": true, "lemma": true, "callers": true, "unprotected": true, "owner": true, "stopowned": true, "stopexempt": true}
 var clauseKeywords = map[string]bool{"requires": true, "ensures": true, "assume": true, "release": true, "at": true, "loop": true, "let": true, "val": true, "modifies": true, "flags": true}
 
 var labelRe = regexp.MustCompile(`^\[([^\]]+)\]\s*`)
@@ -110,7 +115,7 @@ func ParseContractFile(path string) (*ContractDB, error) {
 	if err != nil {
 		return nil, err
 	}
-	db := &ContractDB{Funcs: map[string]*FuncContract{}, Specs: map[string]*SpecFn{}, GhostByName: map[string]GhostVar{}, ThreadLocal: map[string]bool{}, Consts: map[string]string{}, Callers: map[string][]string{}, Owner: map[string]string{}, File: path}
+	db := &ContractDB{Funcs: map[string]*FuncContract{}, Specs: map[string]*SpecFn{}, GhostByName: map[string]GhostVar{}, ThreadLocal: map[string]bool{}, Consts: map[string]string{}, Callers: map[string][]string{}, Owner: map[string]string{}, StopOwned: map[string]bool{}, StopExempt: map[string]bool{}, File: path}
 	lines := strings.Split(string(data), "\n")
 	db.NLines = len(lines)
 	// gather logical items
@@ -164,6 +169,14 @@ func ParseContractFile(path string) (*ContractDB, error) {
 					return nil, fail(fmt.Errorf("owner: expected ="))
 				}
 				db.Owner[strings.TrimSpace(rest[:eq])] = strings.TrimSpace(rest[eq+1:])
+			case "stopowned":
+				for _, f := range strings.Fields(rest) {
+					db.StopOwned[f] = true
+				}
+			case "stopexempt":
+				for _, f := range strings.Fields(rest) {
+					db.StopExempt[f] = true
+				}
 			case "unprotected":
 				db.Unprotected = append(db.Unprotected, strings.Fields(rest)...)
 			case "threadlocal":
